@@ -205,12 +205,19 @@ fn run<T: Elem, M: Math<T>>(c: &MCase<T>) -> Verdict {
             return bad("mul", a, Some(one), sh(a), sh(a1), "one identity");
         }
         // add / sub / mul
-        let checks: [(&str, T, T); 3] = [
-            ("add", a.w_add(b), M::add(a, b)),
-            ("sub", a.w_sub(b), M::sub(a, b)),
-            ("mul", a.w_mul(b), M::mul(a, b)),
+        // a panic (e.g. an overflow check that replaced a wrapping operation) is an outcome, not a harness failure
+        let checks: [(&str, T, Result<T, String>); 3] = [
+            ("add", a.w_add(b), mem::catch(|| M::add(a, b))),
+            ("sub", a.w_sub(b), mem::catch(|| M::sub(a, b))),
+            ("mul", a.w_mul(b), mem::catch(|| M::mul(a, b))),
         ];
         for (name, want, got) in checks {
+            let got = match got {
+                Ok(v) => v,
+                Err(m) => {
+                    return bad(name, a, Some(b), sh(want), format!("panic: {m}"), "the scalar layer must not panic here");
+                }
+            };
             let ok = if T::FLOAT {
                 float_ok(want, got, 0)
             } else {
